@@ -120,7 +120,7 @@ theorem spec_tr (T : Tr) (hinj : ∀ a b, T.frag a = T.frag b → a = b) (s : Sc
     simp only [SpecOf, Spec.variablesAreInputTypes]
     rw [forall_nodes_tr T d (fun n => ∀ v, n = Node.varDef v → ∃ t, typeFromAst s v.type = some t ∧ isInputTy s t = true)]
     refine forall_congr' fun m => forall_congr' fun _ => ?_
-    cases m <;> simp [Tr.node]
+    cases m <;> simp [Tr.node, Tr.varDef]
   · -- known fragment names
     simp only [SpecOf, Spec.knownFragmentNames]
     rw [forall_nodes_tr T d (fun n => ∀ name dirs, n = Node.spread name dirs → name ∈ Spec.fragNames (T.doc d))]
@@ -136,7 +136,7 @@ theorem spec_tr (T : Tr) (hinj : ∀ a b, T.frag a = T.frag b → a = b) (s : Sc
       (dirs.map (·.name)).Nodup)]
     refine forall_congr' fun m => forall_congr' fun _ => ?_
     have hcomp : ((fun x : Dir => x.name) ∘ T.dir) = fun x => x.name := rfl
-    cases m <;> simp [Tr.node, Spec.uniqueDirectivesPerLocation.Node.dirsOf?, hcomp]
+    cases m <;> simp [Tr.node, Tr.varDef, Spec.uniqueDirectivesPerLocation.Node.dirsOf?, hcomp]
   · -- unique argument names
     simp only [SpecOf, Spec.uniqueArgumentNames]
     rw [forall_nodes_tr T d (fun n => ∀ name args dirs hs, n = Node.field name args dirs hs → (args.map (·.name)).Nodup),
@@ -215,7 +215,8 @@ def FullStatement_perm_definitions : Prop :=
   ∀ (s : SchemaD) (d d' : Doc), d.defs.Perm d'.defs → verdict { schema := s } d = verdict { schema := s } d'
 
 /-- full statement: reordering selections / arguments and renaming fragments injectively never changes the
-    verdict of the chain (aliases and variables: not yet covered by `Tr`) -/
+    verdict of the chain (renaming of aliases: `Al`, Props/C06_inv6.lean; of variables: `Vr`, Props/C06_inv7.lean,
+    C06_inv8.lean - each proved for 25 of the 26 rules) -/
 def FullStatement_tr_invariance : Prop :=
   ∀ (T : Tr), (∀ a b, T.frag a = T.frag b → a = b) → ∀ (s : SchemaD) (d : Doc),
     verdict { schema := s } (T.doc d) = verdict { schema := s } d
